@@ -12,7 +12,7 @@ fn secure_dump(n: &Node) -> Vec<String> {
     for k in keys.iter() { if k.starts_with("$$") { let v = dm.get(k).unwrap(); out.push([k.as_str(), "=", &v.value, "@", &v.version.to_string(), "s", &(v.state as usize).to_string()].concat()); } }
     out
 }
-fn mk_secret_node(secret: &String, other_token: &String, other_perms: &str) -> Node {
+fn mk_secret_node(secret: &String, other_token: &String, other_perms: &str, private_name: &str) -> Node {
     let n = mk_primary();
     mk_db(&n.dbs, "d", "none");
     let (mut admin, _arx) = admin_client(&n.dbs);
@@ -23,6 +23,8 @@ fn mk_secret_node(secret: &String, other_token: &String, other_perms: &str) -> N
     process_request("create-user me mt", &n.dbs, &mut admin);
     process_request("set-permissions me rwix *", &n.dbs, &mut admin);
     process_request("set pub 1", &n.dbs, &mut admin);
+    // the NAMES of secure keys are secrets too (listing): one secure key whose name differs between the two servers
+    process_request(&["set ", private_name, " 1"].concat(), &n.dbs, &mut admin);
     n
 }
 
@@ -31,8 +33,8 @@ pub fn c08_noninterference() {
     // (concrete pair of secrets of different shape: numeric vs text with a space; other user's token and permission list differ too)
     let sa = String::from("7"); let sb = String::from("x y");
     let oa = String::from("oa1"); let ob = String::from("ob2");
-    let mut na = mk_secret_node(&sa, &oa, "r a*");
-    let mut nb = mk_secret_node(&sb, &ob, "rwix *");
+    let mut na = mk_secret_node(&sa, &oa, "r a*", "$$na");
+    let mut nb = mk_secret_node(&sb, &ob, "rwix *", "$$nb");
     let sess = vsym::choice("session", 2);          // 0: database token; 1: user token with the customary full list
     vsym::tag_i("session", sess as i64);
     let login = if sess == 0 { "use-db d tok" } else { "use-db d me mt" };
